@@ -1,5 +1,5 @@
 """Build steps shared by every check: harness, translator, dumps, Coq make, audit, extraction."""
-import os, re, json, glob, subprocess, time, hashlib, shutil
+import os, sys, re, json, glob, subprocess, time, hashlib, shutil
 import runner, oracle_gen
 from runner import VERIF, BUILD, COQ, sh
 
@@ -172,6 +172,12 @@ def prepare(full=False):
         st['errors'].append('%s: %s' % (e.what, e.log[-1500:]))
     st['t_harness'] = round(time.time() - t0, 1)
     st['translator'] = run_translator()
+    # every syntactic panic site of the library code is mapped to a failure branch of the model (C07)
+    try:
+        rc, out, err = sh([sys.executable, os.path.join(VERIF, 'translator', 'panic_sites.py')])
+        st['panic_sites'] = json.loads(out) if rc == 0 else {'error': err[-300:]}
+    except Exception as e:
+        st['panic_sites'] = {'error': repr(e)}
     if st['harness_ok']:
         try:
             d = runner.dump_tables()
